@@ -1,6 +1,7 @@
 (* C01 — trial lifecycle: legal transitions only, completed trials immutable, illegal calls fail and change nothing.
    Statements only; `step s (rpc, oracle)` is one RPC on the model of the service (Model/Service.v). *)
 From VZ Require Import Base.Prelude Model.Service Proofs.ServiceP Proofs.WedgeP Proofs.FrameP.
+From VZ Require Model.HandlerIR Gen.Handlers Proofs.HandlerIRP Proofs.AllHandlersP.
 
 (* ---- illegal calls: documented error class, stored data unchanged (every state, every argument) *)
 Theorem C01_missing_study_fails_unchanged : forall s r po k,
@@ -116,6 +117,46 @@ Theorem C01_frame_along_every_history : forall ops ro k n n' id t t',
 Proof. intros ops ro. exact (frame_history ops ro). Qed.
 Print Assumptions C01_frame_along_every_history.
 
+(* THE HANDLERS ARE THE SOURCE.  Gen/Handlers.v, Gen/SuggestSrc.v, Gen/EarlyStopSrc.v and Gen/OptimalSrc.v are regenerated at every
+   run from vizier_service.py.
+   - The bodies of CreateStudy, GetStudy, ListStudies, DeleteStudy, SetStudyState, GetOperation, CreateTrial, GetTrial, ListTrials,
+     AddTrialMeasurement, CompleteTrial, DeleteTrial, StopTrial and UpdateMetadata, STATEMENT BY STATEMENT, in the statement
+     language of Model/HandlerIR.v.
+   - SuggestTrials, CheckTrialEarlyStoppingState and ListOptimalTrials BLOCK BY BLOCK (Model/SuggestIR.v, EarlyStopIR.v,
+     OptimalIR.v): the translator checks that the method consists, in order, of exactly the statements the model was written from
+     and writes down the sequence and lock nesting of the blocks (for SuggestTrials 21: guard, the operation lock, find / create the
+     operation, own ACTIVE trials, the REQUESTED pool under the study lock, the Pythia call and its failure path, the metadata
+     write-back and its failure path, creation of new and surplus trials under the study lock, finishing the operation).
+   The program such a body denotes is, node for node - datastore calls with their arguments, lock operations, the Pythia call,
+   replies, error classes - the handler program every theorem of C01 C02 C04 C05 C06 C07 speaks about, for ALL 17 RPC kinds
+   (C01_source_every_kind); so running any history with the regenerated handlers is running the model. *)
+Theorem C01_source_handlers_are_the_model : forall r,
+  HandlerIR.peq (AllHandlersP.handler_from_source_all r) (handler r).
+Proof. exact AllHandlersP.all_source_handlers_are_the_model. Qed.
+Print Assumptions C01_source_handlers_are_the_model.
+
+Theorem C01_source_handlers_run_like_the_model : forall ops s,
+  fold_left (fun s ro => fst (AllHandlersP.step_src_all s ro)) ops s = run_all ops s.
+Proof. exact AllHandlersP.all_source_history. Qed.
+Print Assumptions C01_source_handlers_run_like_the_model.
+
+(* the same as an equality of programs, through the standard library's functional extensionality (the only theorem of this file
+   that is not closed under the global context): whatever is proved of `handler r` anywhere - under the interleaving semantics
+   of C04, the crash semantics of C05 - is proved of the regenerated program *)
+Theorem C01_source_handlers_equal_the_model : forall r, AllHandlersP.handler_from_source_all r = handler r.
+Proof. exact AllHandlersP.all_source_handlers_equal_the_model. Qed.
+Print Assumptions C01_source_handlers_equal_the_model.
+
+(* the study guard and the set of trial states in which a trial may be edited, as the source spells them *)
+Theorem C01_source_guards : (forall st, immutable st = negb (existsb (sstate_eqb (s_state st)) Handlers.study_mutable_states)) /\
+  (forall t, trial_mutable t = HandlerIR.state_in (t_state t) Handlers.trial_mutable_states).
+Proof. split; [exact HandlerIRP.src_study_guard | exact HandlerIRP.src_trial_mutable]. Qed.
+Print Assumptions C01_source_guards.
+
+(* no kind falls back on the hand-written program *)
+Theorem C01_source_every_kind : forall r, AllHandlersP.from_source r = true.
+Proof. exact AllHandlersP.every_kind_is_from_source. Qed.
+
 (* PARTIAL: trials that are deleted and later re-created under a reused id are different trials (the service allocates
-   max+1, see known finding C12-max-trial-id-decreases); the theorem speaks about one step at a time.  That the handler
-   programs of Model/Service.v are the code is the correspondence's business. *)
+   max+1, see known finding C12-max-trial-id-decreases); the theorem speaks about one step at a time.  That the datastore primitives are the code (and that the blocks of the three block-level handlers mean what Model/*IR.v says)
+   is the correspondence's business. *)
